@@ -182,6 +182,11 @@ func (r *transport) RoundTrip(req *http.Request) (*http.Response, error) {
 	urlKey := r.uk.URLKey(req.URL)
 
 	if !r.rmc.IsRequestMethodUnderstood(req) {
+		if internal.ParseCCRequestDirectives(req.Header).OnlyIfCached() {
+			// RFC 9111 §5.2.1.7: only-if-cached applies to every request; nothing
+			// stored can answer this one and the origin must not be contacted.
+			return make504Response(req)
+		}
 		return r.handleUnrecognizedMethod(req, urlKey)
 	}
 
